@@ -351,6 +351,50 @@ func lookupOrder(c *Ctx, r *Report) {
 		r.add("R02e", name, "nothing found goes on to the next environment", c.Pos(look.Pos()), Undecided, true, "Path.GetValue is not called in a loop over the environments")
 	}
 
+	// the resolvers are siblings of the environments: one that fails — with ErrMissing or with an error of its own —
+	// hands over to the next one; the loop is left only with an answer or when no resolver is left
+	if renv := c.Method("", "reference", "resolveEnv"); renv != nil {
+		var rcall ssa.Instruction
+		for _, ci := range CallsIn(renv, false) {
+			if ci.Common().StaticCallee() == nil && !ci.Common().IsInvoke() {
+				rcall = ci.(ssa.Instruction) // the dynamic call of a resolver function
+			}
+		}
+		if rcall == nil {
+			r.add("R02e", c.FnName(renv), "a failing resolver hands over", c.Pos(renv.Pos()), Undecided, true, "no resolver call found")
+		} else if lp := loopOf(renv, rcall.Block()); lp == nil {
+			r.add("R02e", c.FnName(renv), "a failing resolver hands over", c.Pos(rcall.Pos()), Undecided, true, "the resolver is not called in a loop")
+		} else {
+			bad := ""
+			for b := range lp {
+				ifi, isIf := lastInstr(b).(*ssa.If)
+				for si, su := range b.Succs {
+					if lp[su] {
+						continue
+					}
+					if !isIf {
+						continue
+					}
+					cond := ifi.Cond
+					truth := si == 0
+					// the answer: err == nil
+					if tv, neq, ok := nilTest(cond); ok && typeStr(tv.Type()) == "error" && truth != neq {
+						continue
+					}
+					// no resolver left: a test on the counter
+					if bo, ok := cond.(*ssa.BinOp); ok {
+						if bt, isB := bo.X.Type().Underlying().(*types.Basic); isB && bt.Info()&types.IsInteger != 0 {
+							continue
+						}
+					}
+					bad = c.Pos(ifi.Pos())
+				}
+			}
+			r.Check(bad == "", "R02e", c.FnName(renv), "a failing resolver hands over", c.Pos(rcall.Pos()), "the loop is left with an answer or when no resolver is left",
+				"the resolver loop is left at "+bad+" under a condition on the resolver's error: a resolver that fails with an error of its own keeps the older resolvers from being asked, although the name may be known to one of them (the property's order is: every resolver, most recently added first)")
+		}
+	}
+
 	re := c.Method("", "reference", "resolveEnv")
 	// index of resolvers: phi starting at len-1 with step -1
 	ok := false
